@@ -207,7 +207,7 @@ BIG = 1 << 20
 PROBES = [0, 1, (1 << 19) - 1, 1 << 19, BIG - 1]
 
 
-def gen_random_big(rnd, ops, n_hist, length):
+def gen_random_big(rnd, ops, n_hist, length, near_end=False):
     """depth-20 histories through the RLN API: boundary positions of the real tree, few touched leaves"""
     scen = []
     for _ in range(n_hist):
@@ -231,7 +231,9 @@ def gen_random_big(rnd, ops, n_hist, length):
                 #  accepted ranges away from there, rejected ones are fine)
                 n = rnd.choice([0, 1, 2, 3, 5])
                 st = rnd.choice([0, 1, 255, (1 << 19) - 1, 1 << 19, (1 << 19) + 1, BIG, rnd.randrange(300)]) if not low else pos()
-                if st == BIG - 1 and n == 1:
+                if near_end and not low and rnd.random() < 0.4:
+                    st = rnd.choice([BIG - 3, BIG - 2, BIG - 1])        # in-memory backends: accepted ranges ending at capacity
+                elif st == BIG - 1 and n == 1:
                     n = 2
                 scen.append({"c": "range", "s": st, "vs": [v() for _ in range(n)]})
             elif c == "override":
@@ -377,13 +379,24 @@ def run_property(prop, tier, out, binary=None):
     scenarios.append(("rln-tour-d2", scr, ["rln"]))
     out.notes.append(f"RLN API depth-2 tour: {len(edges_r)} transitions, {covr} covered")
     scenarios.append(("rln-d20", gen_random_big(rnd, rops, 12 if quick else 120, 25), ["rln"]))
+    # 5. the other two backends behind the same public API (builds with `fullmerkletree` / without default features):
+    #    depth 20 with boundary positions, and (thorough) the depth-2 tour
+    other = {}
+    for cfgname in ("full", "optimal"):
+        other[cfgname], _ = build_harness(cfgname)
+        scenarios.append((f"rln-d20-{cfgname}", gen_random_big(rnd, rops, 10 if quick else 120, 25, near_end=True), ["rln", cfgname]))
+        if not quick:
+            scenarios.append((f"rln-tour-d2-{cfgname}", scr, ["rln", cfgname]))
     total_events = 0
     distinct = nontriv = 0
     traces_ok = 0
     import time as _t
     for name, sc, targets in scenarios:
         _t0 = _t.time()
-        tp, tb = execute(binary, wd, name, sc, targets, tamper_every=(1 if prop == "C07" else 0))
+        if len(targets) == 2 and targets[0] == "rln":
+            tp, tb = execute(other[targets[1]], wd, name, sc, ["rln"])
+        else:
+            tp, tb = execute(binary, wd, name, sc, targets, tamper_every=(1 if prop == "C07" else 0))
         rows, dist, nt = summarise_trace(tp)
         _t1 = _t.time()
         res = judge(prop, wd, name, tp, tb, kf_names)
